@@ -78,7 +78,7 @@ def main(argv):
         return 2
     cfg = PROPS[pid]
     t0 = time.time()
-    workdir = os.path.join(core.BUILD, "run", "%s-%s" % (pid, a.tier))
+    workdir = os.path.join(core.BUILD, "run", "%s-%s-%d" % (pid, a.tier, os.getpid()))
     os.makedirs(workdir, exist_ok=True)
     os.makedirs(core.EVID, exist_ok=True)
     known = core.load_known()
